@@ -51,6 +51,7 @@ def run(ctx):
         ctx.guard(value_slot, ctx, cfg, fs)
         ctx.guard(name_search, ctx, cfg, fs)
         ctx.guard(lossless, ctx, cfg, fs)
+        ctx.guard(conversion_arms, ctx, cfg, fs)
         ctx.guard(cluster_table, ctx, cfg, fs)
         ctx.guard(boundaries, ctx, cfg, fs)
         import wiring
@@ -253,6 +254,27 @@ def lossless(ctx, cfg, fs):
         rs = provenance(p, fr[0].args[0], fr[0].bb, 'term', through=None)
         ok = all(r.kind == 'call' and r.call.bb == ts[0].bb and r.path == ['as Some', '0'] for r in rs) and bool(rs)
     ctx.ob('L.lossless', 'parse_os_str:from_str-on-exact-text', ok, 'other targets get FromStr::from_str of exactly the to_str() view of the OS string: %s' % ok, where=p.where(), cfg=cfg)
+
+def conversion_arms(ctx, cfg, fs, rule='L.lossless'):
+    """parse_os_str has exactly the documented arms: OsString and PathBuf take the OS string as it is, every other target goes
+    through to_str() + FromStr and FAILS ("not valid utf8") when the bytes are not UTF-8.  A lossy rendering of the OS string
+    exists only to be quoted in that failure: it sits on the None edge of to_str() and never inside a closure that could feed a
+    value (`into_string().unwrap_or_else(|os| os.to_string_lossy()..)` would turn invalid input into a successful, altered value)"""
+    p = ctx.look(fs.one(r'^from_os_str::parse_os_str$'))
+    ts = [c for c in p.calls() if c.is_(r'OsStr::to_str$')]
+    sw = switch_on_call(p, ts[0]) if len(ts) == 1 else None
+    bad = []
+    for x in fs.family(p):
+        for c in x.calls():
+            if c.is_(r'to_string_lossy$', r'from_utf8_lossy$', r'into_string$'):
+                if x is not p:
+                    bad.append('%s inside a closure' % c.name.split('::')[-1])
+                elif sw is None or sw.target('None') is None or not only_via_edge(p, sw.b, sw.target('None'), c.bb):
+                    bad.append('%s outside the failure arm of to_str()' % c.name.split('::')[-1])
+    # the TypeId special cases are the two documented ones
+    tids = sorted({m.group(1) for c in p.calls() for m in [re.search(r'TypeId::of::<(.*)>$', c.full)] if m and m.group(1) != 'T'})
+    ctx.ob(rule, 'parse_os_str:lossy-only-in-the-error', len(ts) == 1 and not bad, 'parse_os_str renders the OS string lossily only to quote it in the "not valid utf8" failure: %s' % (bad or 'ok'), where=p.where(), cfg=cfg)
+    ctx.ob(rule, 'parse_os_str:special-cased-targets', tids == ['std::ffi::OsString', 'std::path::PathBuf'], 'parse_os_str bypasses FromStr exactly for %s (expected OsString and PathBuf: every other type is converted - and validated - by its FromStr)' % tids, where=p.where(), cfg=cfg)
 
 def cluster_table(ctx, cfg, fs):
     b = ctx.look(fs.body('args::disambiguate_short'))
